@@ -85,7 +85,8 @@ Section Wire.
 
   (* JSONP: the same JSON, wrapped *)
   Definition via_json_handler (p : payload) : bool :=
-    match p with PData v _ => marshalable v | PSys _ | PCplx _ _ | PApp _ _ => true | PPlain _ _ => false end.
+    match p with PData v _ => marshalable v | PSys _ | PCplx _ _ | PApp _ _ => true | PPlain _ _ => false
+            | PRaw _ m _ => members_marshalable m end.
 
   Lemma jsonp_wrap cb p : cb <> [] -> via_json_handler p = true ->
     let r := respond g cb p in let r0 := respond g [] p in
@@ -93,7 +94,7 @@ Section Wire.
     wire (body r) = cb ++ [lparen] ++ wire (body r0) ++ [rparen].
   Proof.
     intros Hcb Hp. destruct cb as [|c0 cb]; [congruence|].
-    destruct p as [v merr|c|c msg|c msg|st msg]; cbn in Hp; try discriminate;
+    destruct p as [v merr|c|c msg|c msg|st msg|st m merr]; cbn in Hp; try discriminate;
       unfold respond; rewrite ?Hp; cbn; repeat split; reflexivity.
   Qed.
 
@@ -144,6 +145,7 @@ Section Wire.
     | PData v _ => marshalable v = false
     | PSys c | PCplx c _ | PApp c _ => c <> 0
     | PPlain st _ => match st with Some s => 300 <= s | None => True end
+    | PRaw _ m _ => members_marshalable m = false   (* a replaced hook decides everything else itself *)
     end.
 
   Lemma never_confused p :
@@ -151,14 +153,27 @@ Section Wire.
     (forall v merr, p = PData v merr -> marshalable v = true -> api_request (respond g [] p) = (0, false)).
   Proof.
     split.
-    - destruct p as [v merr|c|c msg|c msg|st msg]; cbn [is_failure]; intros H.
+    - destruct p as [v merr|c|c msg|c msg|st msg|st m merr]; cbn [is_failure]; intros H.
       + now apply unmarshalable_client.
       + rewrite (coded_client (PSys c) c _ (or_introl (conj eq_refl eq_refl)) H). reflexivity.
       + rewrite (coded_client (PCplx c msg) c _ (or_intror (ex_intro _ msg (conj (or_introl eq_refl) eq_refl))) H). reflexivity.
       + rewrite (coded_client (PApp c msg) c _ (or_intror (ex_intro _ msg (conj (or_intror eq_refl) eq_refl))) H). reflexivity.
       + now apply plain_client.
+      + unfold respond. rewrite H. unfold api_request. cbn [status plain_handler]. apply client_non2xx. lia.
     - intros v merr -> H. now apply success_client.
   Qed.
+
+  (* a replaced FilterData hook: whatever object it returns is what is marshalled, with the
+     status the object declares; the client half sees exactly that object *)
+  Lemma raw_resp cb st m merr : members_marshalable m = true ->
+    respond g cb (PRaw st m merr) =
+      {| status := match st with Some s => s | None => 200 end; ctyp := if is_nil cb then CtJson else CtJs;
+         server := srv_name g; body := BEnv cb m |}.
+  Proof. intros H. unfold respond. rewrite H. reflexivity. Qed.
+
+  Lemma raw_client st m merr : members_marshalable m = true ->
+    api_request (respond g [] (PRaw st m merr)) = client (match st with Some s => s | None => 200 end) (view_of_members m).
+  Proof. intros H. rewrite raw_resp by auto. unfold api_request. cbn [status body wire]. now rewrite parse_marshal. Qed.
 
   (* what stays possible (recorded finding plain-error-2xx-json): an error that declares a 2xx
      status itself and whose text the JSON decoder reads as an object with code 0 *)
@@ -179,9 +194,9 @@ Section Wire.
     (forall t, body r = BText t -> parse_view t = tv) ->
     (forall m, body r = BEnv [] m -> forallb (fun kv => marshalable (snd kv)) m = true) ->
     (forall cb m, body r = BEnv cb m -> cb = []) ->
-    api_request r = client (status r) (body_view (body r) tv).
+    forall jtv, api_request r = client (status r) (body_view (body r) tv jtv).
   Proof.
-    intros Ht Hm Hcb. unfold api_request. destruct (body r) as [cb m|t] eqn:E.
+    intros Ht Hm Hcb jtv. unfold api_request. destruct (body r) as [cb m|t] eqn:E.
     - rewrite (Hcb cb m eq_refl). cbn. rewrite parse_marshal by (apply Hm; now rewrite (Hcb cb m eq_refl)). reflexivity.
     - cbn. now rewrite (Ht t eq_refl).
   Qed.
@@ -335,3 +350,24 @@ Proof.
   intros Hcb Hp. rewrite !wire_exec_wire.
   destruct (jsonp_wrap (fun _ => mb) g cb p Hcb Hp) as (_ & _ & _ & _ & H). exact H.
 Qed.
+
+(* ---- strings that are not valid UTF-8 ---- *)
+Lemma utf8_fix_ascii s : Forall (fun c => (c < 128)%N) s -> utf8_fix s = s.
+Proof.
+  induction 1 as [|c t Hc _ IH]; [reflexivity|]. cbn [utf8_fix].
+  destruct (c <? 128)%N eqn:E; [now rewrite IH|apply N.ltb_ge in E; lia].
+Qed.
+
+(* a stray continuation byte, a truncated sequence, an overlong form and a surrogate are each
+   replaced byte by byte; valid 2-, 3- and 4-byte sequences (U+FFFD itself included) are kept *)
+Example ex_utf8_fix :
+  utf8_fix [97; 128; 98]%N = [97; 239; 191; 189; 98]%N /\
+  utf8_fix [195]%N = [239; 191; 189]%N /\
+  utf8_fix [192; 175]%N = [239; 191; 189; 239; 191; 189]%N /\
+  utf8_fix [237; 160; 128]%N = [239; 191; 189; 239; 191; 189; 239; 191; 189]%N /\
+  utf8_fix [195; 169; 228; 184; 173; 240; 159; 152; 128; 239; 191; 189]%N = [195; 169; 228; 184; 173; 240; 159; 152; 128; 239; 191; 189]%N.
+Proof. vm_compute. repeat split. Qed.
+
+Example ex_f64_to_int :
+  f64_to_int 4617315517961601024 = 5 /\ f64_to_int 13837628687431468646 = -3 /\ f64_to_int 4602678819172646912 = 0.
+Proof. vm_compute. auto. Qed.
